@@ -1336,3 +1336,69 @@ func c16RoutedIDTracked(c *Ctx) {
 	c.cut(R, "pair:a retired connection ID leaves the active set", &Cut{Fn: ret, Start: CallsTo(q), Target: isReturn, Barrier: isDel},
 		"an ID queued for removal that stays in activeSrcConnIDs is routed again by AddConnRunner / ReplaceWithClosed after its retirement period")
 }
+
+// C19.7: the response writer drops "Trailer:"-prefixed keys before lower-casing (the prefix is spelled with a capital T).
+func c19TrailerPrefixBeforeLower(c *Ctx) {
+	const R = "C19.7"
+	f := c.fn(h3, "responseWriter", "writeHeader")
+	hasPrefix := c.obj("strings", "", "HasPrefix")
+	toLower := c.obj("strings", "", "ToLower")
+	n := 0
+	for _, in := range findInstrs(f, CallsTo(hasPrefix)) {
+		args := in.(ssa.CallInstruction).Common().Args
+		pfx, isK := constString(args[1])
+		if !isK || pfx != "Trailer:" {
+			continue
+		}
+		n++
+		lowered := false
+		if cl, ok := stripConv(args[0]).(*ssa.Call); ok && calleeObj(&cl.Call) == toLower {
+			lowered = true
+		}
+		c.Check(!lowered, R, "filter:the Trailer: prefix test sees the key as the handler set it", c.P.InstrPos(in),
+			"http.TrailerPrefix is \"Trailer:\" with a capital T: tested on the lower-cased name it never matches, and a field named trailer:x (invalid) is written into the header section")
+	}
+	c.Floor(R, "Trailer: prefix tests in writeHeader", n, 1)
+}
+
+// C20.5: growth is allowed below a full window only in slow start; a larger datagram size re-pins a window that
+// sat at the minimum, judged against the OLD minimum.
+func c20AppLimitedAndMTU(c *Ctx) {
+	const R = "C20.5"
+	cg := "internal/congestion"
+	f := c.fn(cg, "cubicSender", "isCwndLimited")
+	iss := c.obj(cg, "cubicSender", "InSlowStart")
+	// the comparison bytesInFlight > cwnd/2 is evaluated only past InSlowStart()==true
+	n := 0
+	eachInstr(f, func(in ssa.Instruction) {
+		bo, ok := in.(*ssa.BinOp)
+		if !ok || bo.Op != token.GTR || !ParamV("bytesInFlight")(bo.X) {
+			return
+		}
+		if q, ok := stripConv(bo.Y).(*ssa.BinOp); !ok || q.Op != token.QUO {
+			return
+		}
+		n++
+		c.Check(dominatedByEdge(bo.Block(), BoolTrue(CallTo(iss, -1)), false), R, "guard:the half-window shortcut applies in slow start only", c.P.InstrPos(in),
+			"in congestion avoidance an application-limited sender (more than half, but not the whole window in flight) must not grow the window")
+	})
+	c.Floor(R, "half-window comparisons in isCwndLimited", n, 1)
+	// SetMaxDatagramSize: the at-minimum test precedes the store of the new size
+	s := c.fn(cg, "cubicSender", "SetMaxDatagramSize")
+	mds := c.fld(cg, "cubicSender", "maxDatagramSize")
+	minW := c.obj(cg, "cubicSender", "minCongestionWindow")
+	cw := c.fld(cg, "cubicSender", "congestionWindow")
+	var cmp ssa.Instruction
+	eachInstr(s, func(in ssa.Instruction) {
+		if bo, ok := in.(*ssa.BinOp); ok && bo.Op == token.EQL && Load(cw)(bo.X) && CallTo(minW, -1)(bo.Y) {
+			cmp = in
+		}
+	})
+	c.Check(cmp != nil, R, "shape:SetMaxDatagramSize tests congestionWindow == minCongestionWindow()", c.P.Pos(s.Pos()), "a window pinned at the minimum follows the minimum")
+	if cmp != nil {
+		for _, st := range findInstrsLocal(s, StoresTo(mds)) {
+			c.Check(!instrReaches(st, cmp) && !instrReaches(st, stripConv(cmp.(*ssa.BinOp).Y).(ssa.Instruction)), R, "order:the at-minimum test uses the old datagram size", c.P.InstrPos(st),
+				"minCongestionWindow() is 2 × maxDatagramSize: evaluated after the store it is the NEW minimum, the test is never true on an increase and the window stays below two full-size packets")
+		}
+	}
+}
